@@ -67,6 +67,12 @@ TOp(E) ==
        /\ E.ret = r.ret
        /\ EvsOK(E.c, E.ev, r.ev)'
   /\ ViewOK(E.c, E.view)'
+  \* C12: a refused append and a no-op make_read_only touch no store, and once a call has
+  \* returned on a sealed core (make_read_only has returned) no store holds any 8-byte window
+  \* of the secret key
+  /\ (E.ret.t = "notwritable" => E.jn = 0)
+  /\ (E.op.o = "mro" /\ ~cores[E.c].writable => E.jn = 0)
+  /\ (cores[E.c].sealed)' => E.leak = <<>>
   /\ UNCHANGED stack
 
 \* the call E.op was in progress when the process died after E.ks storage operations
